@@ -50,7 +50,9 @@ func (s *scanner) reset() {
 // an error state is returned if maxNestingDepth was exceeded, otherwise successState is returned.
 func (s *scanner) pushParseState(newParseState int, successState int) int {
 	s.parseState = append(s.parseState, newParseState)
-	if len(s.parseState) <= maxNestingDepth {
+	// The outermost value is depth 0, so maxNestingDepth nested levels
+	// correspond to maxNestingDepth+1 entries on the stack.
+	if len(s.parseState) <= maxNestingDepth+1 {
 		return successState
 	}
 	return scanError
